@@ -74,7 +74,7 @@ class Interp:
     STEP_LIMIT = 3_000_000
 
     def __init__(s, mod, dom, decisions=None, pc=None, stats=None):
-        s.mod = mod; s.dom = dom; s.solver = z3.Solver(); s.solver.set('timeout', 15000); s.pc = []; s.decisions = list(decisions or []); s.taken = []
+        s.mod = mod; s.dom = dom; s.solver = z3.Solver(); s.pc = []; s.decisions = list(decisions or []); s.taken = []
         s.st = stats or Stats(); s.viol = []; s.regions = []; s.globals = {}; s.rcnt = 0; s.bases = {}
         s.notes = []; s.val_cache = {}; s.fma_fused = '+fma' in mod.target_features
         s.heap_calls = []; s.depth = 0; s.name_ite = False; s.pc_gen = 0
@@ -389,9 +389,9 @@ class Interp:
              'sgt': lambda: A > B, 'sge': lambda: A >= B}[pred]()
         return simp(r)
 
-    def ite(s, c, a, b):
+    def ite(s, c, a, b, w=None):
         """c: z3 Bool"""
-        r = s.ite0(c, a, b)
+        r = s.ite0(c, a, b, w)
         if s.name_ite and not isinstance(c, int):
             # name the selected value (definition added to the hypotheses): keeps min/max networks linear for the solver
             if isinstance(r, FV) and r.r is not None and r.den is None and z3.is_app_of(r.r, z3.Z3_OP_ITE):
@@ -400,10 +400,10 @@ class Interp:
                 s.dom.cnt += 1; v = z3.BitVec(f'sel!{s.dom.cnt}', r.size()); s.dom.hyp.append(v == r); return v
         return r
 
-    def ite0(s, c, a, b):
+    def ite0(s, c, a, b, w=None):
         if a is b: return a
         if isinstance(c, int): return a if c else b
-        if isinstance(a, list): return [s.ite(c, x, y) for x, y in zip(a, b)]
+        if isinstance(a, list): return [s.ite(c, x, y, w) for x, y in zip(a, b)]
         if isinstance(a, Undef) and isinstance(b, Undef): return UNDEF
         if isinstance(a, Undef) or isinstance(b, Undef):
             # a select between a defined value and undef may legally pick the defined one
@@ -426,7 +426,9 @@ class Interp:
         if (isinstance(a, int) or z3.is_bool(a)) and (isinstance(b, int) or z3.is_bool(b)) and (z3.is_bool(a) or z3.is_bool(b)):
             A = z3.BoolVal(bool(a)) if isinstance(a, int) else a; B = z3.BoolVal(bool(b)) if isinstance(b, int) else b
             return simp(z3.If(c, A, B))
-        w = a.size() if not isinstance(a, int) else b.size()
+        if isinstance(a, int) and isinstance(b, int):
+            if w is None: raise EncodingError('select between two constants of unknown width')
+        else: w = a.size() if not isinstance(a, int) else b.size()
         return simp(z3.If(c, bv(a, w), bv(b, w)))
 
     def cast(s, op, a, fty, tty):
@@ -805,9 +807,12 @@ class Interp:
             raise EncodingError('phi in the middle of a block')
         elif op == 'select':
             c = C(I.c, I.cty, env); a = C(I.a, I.ty, env); b = C(I.b, I.ty, env)
+            ety = I.ty.el if isinstance(I.ty, VecTy) else I.ty
+            w_ = ety.w if isinstance(ety, IntTy) else None
             if isinstance(I.cty, VecTy):
-                env[I.dst] = [s.select1(ci, x, y) for ci, x, y in zip(c, a, b)]
-            else: env[I.dst] = s.select1(c, a, b)
+                env[I.dst] = [s.select1(ci, x, y, w_) for ci, x, y in zip(c, a, b)]
+            elif isinstance(I.ty, VecTy): env[I.dst] = [s.select1(c, x, y, w_) for x, y in zip(a, b)]
+            else: env[I.dst] = s.select1(c, a, b, w_)
         elif op in CASTS:
             env[I.dst] = s.cast(op, C(I.a, I.fty, env), I.fty, I.ty)
         elif op == 'shufflevector':
@@ -882,11 +887,11 @@ class Interp:
             raise EncodingError('unhandled ' + I.line[:120])
         return None
 
-    def select1(s, c, a, b):
+    def select1(s, c, a, b, w=None):
         if isinstance(c, Undef): return UNDEF
         c = to_bool(c)
         if isinstance(c, int): return a if c else b
-        return s.ite(c, a, b)
+        return s.ite(c, a, b, w)
 
     def fbin(s, op, a, b, w):
         if isinstance(a, Undef) or isinstance(b, Undef): return UNDEF
